@@ -17,12 +17,20 @@ type Lexer struct {
 
 	buf    bytes.Buffer
 	offset int
+
+	// comment is true while the lexer is inside a bracketed comment.
+	comment bool
+	// partial is true if the last Token() failed in the middle of a token or a bracketed comment, not before one.
+	partial bool
 }
 
 // Token returns the next token.
 func (l *Lexer) Token() (Token, error) {
 	l.offset = l.buf.Len()
-	return l.layoutTextSequence(false)
+	l.comment = false
+	t, err := l.layoutTextSequence(false)
+	l.partial = err != nil && (l.comment || l.buf.Len() > l.offset)
+	return t, err
 }
 
 func (l *Lexer) next() (rune, error) {
@@ -282,6 +290,7 @@ func (l *Lexer) commentOpen() (Token, error) {
 	case err != nil:
 		return Token{}, err
 	case r == '*':
+		l.comment = true
 		return l.commentText(true)
 	default:
 		l.backup()
@@ -295,6 +304,7 @@ func (l *Lexer) commentClose() (Token, error) {
 	case err != nil:
 		return Token{}, err
 	case r == '/':
+		l.comment = false
 		return l.layoutTextSequence(true)
 	case r == '*':
 		return l.commentClose()
